@@ -201,7 +201,6 @@ package bt
 //@   assigns
 
 //@ func bt.(*Tx).change
-//@   bytes array
 //@   int-overflow check
 //@   lemma (=> (and (not (nil? output)) (. output newOutput) (not (nil? (. output lockingScript)))) (= changeBytes (spec.new_output_bytes (len (. output lockingScript)) (old (len (. tx Outputs))))))
 //@   requires (spec.inputs_nonnil tx) (spec.outputs_nonnil tx)
@@ -215,7 +214,7 @@ package bt
 //@   ensures[C10.fee_left_existing_output] (=> (and (= err nil) r1 (nil? output)) (and (= (- (old (spec.sum_in tx)) (+ (old (spec.sum_out tx)) r0)) (spec.quoted f (old (spec.est_std tx)) (old (spec.est_data tx)))) (= (. tx Outputs) (old (. tx Outputs)))))
 //@   ensures[C10.existing_outputs_untouched] (=> (= err nil) (forall ((k Int)) (=> (and (<= 0 k) (< k (old (len (. tx Outputs))))) (= (at (. tx Outputs) k) (old (at (. tx Outputs) k))))))
 //@   ensures[C10.outputs_stay_nonnil] (=> (and (= err nil) (or (nil? output) (not (. output newOutput)))) (spec.outputs_nonnil tx))
-//@   ensures[C10.change_output_appended] (=> (and (= err nil) r1 (not (nil? output)) (. output newOutput)) (and (= (len (. tx Outputs)) (+ (old (len (. tx Outputs))) 1)) (= (. (at (. tx Outputs) (old (len (. tx Outputs)))) Satoshis) r0) (= (. (at (. tx Outputs) (old (len (. tx Outputs)))) LockingScript) (. output lockingScript)) (forall ((k Int)) (=> (and (<= 0 k) (< k (old (len (. tx Outputs))))) (= (at (. tx Outputs) k) (old (at (. tx Outputs) k)))))))
+//@   ensures[C10.change_output_appended] (=> (and (= err nil) r1 (not (nil? output)) (. output newOutput)) (and (= (len (. tx Outputs)) (+ (old (len (. tx Outputs))) 1)) (= (. (at (. tx Outputs) (old (len (. tx Outputs)))) Satoshis) r0) (= (. (at (. tx Outputs) (old (len (. tx Outputs)))) LockingScript) (. output lockingScript))))
 
 //@ func bt.(*Tx).Change
 //@   requires (spec.inputs_nonnil tx) (spec.outputs_nonnil tx)
